@@ -728,6 +728,9 @@ enum ZOp {
     IntoIter(usize, usize),
     Splice(Bound<usize>, Bound<usize>, usize, usize),
     CloneVec,
+    ShrinkToFit,
+    ReserveExact(usize),
+    TryReserve(usize, bool),
 }
 
 macro_rules! zapply {
@@ -775,12 +778,18 @@ macro_rules! zapply {
                 format!("removed:{}", k)
             }
             ZOp::CloneVec => { let c = $v.clone(); let n = c.len(); std::mem::forget(c); format!("len:{}", n) }
+            ZOp::ShrinkToFit => { $v.shrink_to_fit(); format!("cap_ok:{}", $v.capacity() >= $v.len()) }
+            ZOp::ReserveExact(n) => { $v.reserve_exact(*n); format!("cap_ok:{}", $v.capacity() >= $v.len() + *n) }
+            ZOp::TryReserve(n, exact) => { let r = if *exact { $v.try_reserve_exact(*n).is_ok() } else { $v.try_reserve(*n).is_ok() }; format!("ok:{}", r) }
         }
     }};
 }
 
 fn gen_zop(rng: &mut Rng, len: usize) -> ZOp {
-    match rng.below(22) {
+    match rng.below(26) {
+        22 | 23 => ZOp::ShrinkToFit,
+        24 => ZOp::ReserveExact(if rng.chance(1, 4) { usize::MAX - rng.usize_below(3) } else { rng.usize_below(40) }),
+        25 => ZOp::TryReserve(if rng.chance(1, 2) { usize::MAX - rng.usize_below(4) } else { rng.usize_below(40) }, rng.chance(1, 2)),
         0 | 1 | 2 => ZOp::Push,
         3 => ZOp::Pop,
         4 => ZOp::Insert(pick_index(rng, len)),
@@ -1025,6 +1034,36 @@ fn grid() {
                     let mut be = ba.clone(); be.extend(b.iter()); let mut se = a.clone(); se.extend(b.iter());
                     if !ok || be.to_vec() != se { bad += 1; println!("Q vec_traits_u32 n={} m={} | differs | -", n, m); }
                 }
+            }
+            // the vec! macro: same contents as std's, the length expression evaluated once, the element
+            // expression once (for n > 0), n - 1 clones
+            {
+                use std::cell::Cell;
+                thread_local! { static CLONES: Cell<u32> = Cell::new(0); }
+                #[derive(PartialEq, Debug)]
+                struct Ck(u32);
+                impl Clone for Ck { fn clone(&self) -> Ck { CLONES.with(|c| c.set(c.get() + 1)); Ck(self.0) } }
+                for n in [0usize, 1, 2, 5, 17] {
+                    let (mut nb, mut eb, mut ns, mut es) = (0u32, 0u32, 0u32, 0u32);
+                    CLONES.with(|c| c.set(0));
+                    let vb = bumpalo::vec![in &bump; { eb += 1; Ck(7) }; { nb += 1; n }];
+                    let cb = CLONES.with(|c| c.replace(0));
+                    let vs = std::vec![{ es += 1; Ck(7) }; { ns += 1; n }];
+                    let cs = CLONES.with(|c| c.replace(0));
+                    let ok = vb.len() == vs.len() && vb.iter().eq(vs.iter()) && nb == ns && (n == 0 || (eb == es && cb == cs)) && vb.capacity() >= n;
+                    if !ok { bad += 1; println!("Q vec_macro_repeat n={} | len={} n_evals={} elem_evals={} clones={} | len={} n_evals={} elem_evals={} clones={}", n, vb.len(), nb, eb, cb, vs.len(), ns, es, cs); }
+                }
+                let mut it = [2usize, 5, 1].iter().copied();
+                let vb = bumpalo::vec![in &bump; 1u32; it.next().unwrap()];
+                let mut it2 = [2usize, 5, 1].iter().copied();
+                let vs = std::vec![1u32; it2.next().unwrap()];
+                if vb.len() != vs.len() || it.next() != it2.next() { bad += 1; println!("Q vec_macro_repeat_iter | len={} | len={}", vb.len(), vs.len()); }
+                let mut k = 0u32;
+                let vb = bumpalo::vec![in &bump; { k += 1; k }, { k += 1; k }, { k += 1; k },];
+                let mut k2 = 0u32;
+                let vs = std::vec![{ k2 += 1; k2 }, { k2 += 1; k2 }, { k2 += 1; k2 },];
+                let ve: BVec<u8> = bumpalo::vec![in &bump];
+                if vb.as_slice() != vs.as_slice() || !ve.is_empty() { bad += 1; println!("Q vec_macro_list | {:?} | {:?}", vb, vs); }
             }
             println!("Q vec_traits_sweep | {} | same", if bad == 0 { "same".to_string() } else { format!("{}_cases_differ", bad) });
         }
